@@ -105,6 +105,13 @@ pub fn returned_components<const N: usize>() {
     use w3::*;
     let m: Model<N> = Model::any_inv();
     assume_no_overflow(&m);
+    // two removals happen below: keep both counters two steps away from the documented overflow panic
+    sym::assume(m.version < u32::MAX - 2);
+    let mut i = 0;
+    while i < N {
+        sym::assume(m.slot_ver[i] < u32::MAX - 2);
+        i += 1;
+    }
     let k = sym::any_usize();
     sym::assume(k < m.len);
     let mut world = load::<Tri, N>(&m);
